@@ -326,6 +326,11 @@ SAFE_METHODS = {
 
 class Interp:
     def __init__(self, globals_: dict | None = None, budget: int = 20000):
+        import os as _os
+
+        if _os.environ.get("MVERIF_NO_ABSEXEC"):
+            # test switch: behave as if the analysed code were outside the executor's subset (exercises the fallbacks)
+            raise Unsupported("abstract executor disabled (MVERIF_NO_ABSEXEC)")
         self.globals = Env()
         for k, v in (globals_ or {}).items():
             self.globals.set(k, v)
